@@ -604,18 +604,21 @@ def run_bound(st):
         perms.append(list(reversed(s)))
         perms.append(s[1:] + s[:1])
     conts = {"list": list, "tuple": tuple, "ndarray": lambda x: np.array(x, dtype=float)}
-    for o in ("minsum", "maxsum", "diff"):
-        ob = objective(o)
+    for o, kp in (("minsum", 0), ("maxsum", 0), ("diff", 0), ("klargest", 1), ("klargest", 2), ("ksmallest", 1), ("ksmallest", 2)):
+        ob = objective(o, kp) if kp else objective(o)
         for cname, mk in conts.items():
             for flag, p in [(1, perms[0])] + [(0, p) for p in perms]:
-                ev = {"o": o, "flag": flag, "cont": cname, "p": p, "out": "ret", "v": 0, "exact": True}
+                # the k-sum objectives inherit the trivial bound (minus infinity, recorded as ninf); if one of them ever gets a bound of its own it must be admissible too
+                ev = {"o": o, "kp": kp, "ninf": 0, "flag": flag, "cont": cname, "p": p, "out": "ret", "v": 0, "exact": True}
                 try:
                     c = mk(p)
                     v = ob.lower_bound(c, R, are_sums_in_ascending_order=bool(flag))
                     if [x for x in c] != list(p):
                         ev["out"] = "bad:the_sums_given_were_modified_by_the_call"
                     iv = exact_int(v)
-                    if iv is None:
+                    if kp and isinstance(v, (float, np.floating)) and v == -np.inf:
+                        ev["ninf"] = 1
+                    elif iv is None:
                         ev["exact"] = False
                     else:
                         ev["v"] = iv
